@@ -46,7 +46,11 @@ pub fn tabs_everywhere(_args: &[String]) -> String {
                         let want = format!("{}{}|\t{}|", lit, pfx, msg).replace('\t', &sp(tw));
                         let got = term.contents();
                         if got.contains('\t') || got.trim_end() != want.trim_end() {
-                            return fail("C16 every tab is expanded to the bar's current tab width", &hist, &want, &got);
+                            // the same text with other gaps is a tab-width problem; other text is (also) a stale message / prefix / literal
+                            let strip = |s: &str| s.chars().filter(|c| !c.is_whitespace()).collect::<String>();
+                            let clause = if strip(&got) == strip(&want) { "C16 every tab is expanded to the bar's current tab width" }
+                                else { "C16/C11 the line shows the current message, prefix and template text (tab-expanded)" };
+                            return fail(clause, &hist, &want, &got);
                         }
                     }
                 }
